@@ -171,6 +171,8 @@ class MergeConsecutiveOp(BaseOp):
         for index in range(max_groups):
             df_group = df_new.loc[remove_df["remove"]
                                   == index + 1, ["onset", "duration"]]
+            if df_group.empty:
+                continue
             max_group = df_group.sum(axis=1, skipna=True).max()
             anchor = df_group.index[0] - 1
             max_anchor = df_new.loc[anchor, [
